@@ -122,6 +122,15 @@ CHECKS["C01"] = dict(
     note=E2NOTE,
 )
 
+CHECKS["C15"] = dict(
+    engine=E2, category="model_checking", design="§3 C15",
+    technique="symbolic execution of loads (and loads -> serialize -> loads) on tdm skeleton scripts with z3-term proxies vs the reference interpreter's by-name semantics; concrete cases for string arguments",
+    text="tdm skeletons (p-arrays of each dtype and several names, ordinary scalars/arrays, template parameters, loops, positional and keyword use, non-tdm controls) are "
+         "loaded by the real code with all elements symbolic and compared by z3 with the reference (by-name delivery, data kept under the name, other variables by value, "
+         "parameters, is_template), then put through the two-generation round trip; string arguments of API-built tdm programs are concrete-structure cases.",
+    note=E2NOTE,
+)
+
 NOT_YET = "check not built yet in this round (see DESIGN.md §3 for the plan); not claimed"
 
 
